@@ -201,8 +201,11 @@ def c05(v, tier, seed):
     if shards and shards[0]:
         v.sample({"trace_prefix": shards[0][:4]})
         pdu.negative_control(v, wd, [e for e in shards[0][:80]], "C05")
+    # (d) the example talkers' packet streams against the Talkers.tla stream machine
+    talker_streams(v, wd, "C05", rnd, q)
     v.cov["rule"] = ("(a) all ordered pairs of operations per view (BFS), (b) TLC-simulated histories of 40 operations over 3 buffers replayed without resets, "
-                     "(c) seeded random histories recorded from the library and validated by PduTrace; RecordView/ReadsLastWritten invariants on the model")
+                     "(c) seeded random histories recorded from the library and validated by PduTrace; RecordView/ReadsLastWritten invariants on the model; "
+                     "(d) packet streams of the example talkers (AAF, CRF, hello-world, ACF-VSS in every mode) validated by the Talkers stream machine")
     v.cov["distinct_nontrivial"] = v.cov.get("histories_replayed", 0)
 
 
@@ -773,40 +776,46 @@ def c19(v, tier, seed):
     modes = [(t, u, f, c) for t in (0, 1) for u in (0, 1) for f in (0, 1) for c in ((1, 2) if q else (1, 2, 3))]
     total = 0
     shard_jobs = []
-    for (tscf, udp, fd, count) in modes:
+    import concurrent.futures as cf, threading
+    lock = threading.Lock()
+    def run_mode(mode):
+        (tscf, udp, fd, count) = mode
         lens = ([0, 3, 8] if q else [0, 1, 3, 4, 8]) if not fd else ([0, 12, 64] if q else [0, 1, 8, 12, 63, 64])
         if count == 3: lens = lens[:2]
         if count == 2 and not q: lens = lens[:3]
-        res = run_tlc("GenTunnel", tunnel_cfg(tscf, udp, fd, count, npackets=1, lens=lens), wd)
-        v.add_tlc("GenTunnel tscf=%d udp=%d fd=%d count=%d" % (tscf, udp, fd, count), res)
+        res = run_tlc("GenTunnel", tunnel_cfg(tscf, udp, fd, count, npackets=1, lens=lens), wd, workers=2, heap="3g")
+        with lock: v.add_tlc("GenTunnel tscf=%d udp=%d fd=%d count=%d" % (tscf, udp, fd, count), res)
         if not res.ok: raise Infra("CanTunnel reference machine not transparent:\n" + (res.violation or "")[-1200:])
         scns = res.emitted
+        rr = random.Random(seed * 1000 + tscf * 8 + udp * 4 + fd * 2 + count)
         if q and len(scns) > 400:
-            scns = rnd.sample(scns, 400)
-        # multi-packet sequences: chain pairs of scenarios into one talker run (the talker keeps running)
+            scns = rr.sample(scns, 400)
         tl = ["T %d %d %d %d %s" % (tscf, udp, fd, count, " ".join(xprog.frame_bytes(f, fd).hex() for f in s["frames"])) for s in scns]
         tres, _ = xprog.run_xh(talker, tl)
         ll, meta = [], []
         for s, r in zip(scns, tres):
             pk = [p for seg in r["outs"] for p in seg]
             if r["status"] != "ok" or len(pk) != 1:
-                v.violation(tunnel_key(s, "talker-run"), "talker did not produce exactly one packet (%s, %d packets) for %s" % (r["status"], len(pk), json.dumps(s)[:300]), {"scenario": s})
+                with lock: v.violation(tunnel_key(s, "talker-run"), "talker did not produce exactly one packet (%s, %d packets) for %s" % (r["status"], len(pk), json.dumps(s)[:300]), {"scenario": s})
                 continue
             ll.append("L %d %d 0 %s" % (udp, fd, pk[0])); meta.append((s, pk[0]))
-        lres, _ = xprog.run_xh(listener, ll)
+        lres, _ = xprog.run_xh(listener, ll) if ll else ([], "")
         evs = []
         for (s, pk), r in zip(meta, lres):
             if r["status"] != "ok":
-                v.violation(tunnel_key(s, "listener-run"), "listener %s on the talker's packet for %s" % (r["status"], json.dumps(s)[:300]), {"scenario": s, "packet": pk})
+                with lock: v.violation(tunnel_key(s, "listener-run"), "listener %s on the talker's packet for %s" % (r["status"], json.dumps(s)[:300]), {"scenario": s, "packet": pk})
                 continue
             frames_out = [xprog.frame_parse(bytes.fromhex(x), fd) for seg in r["outs"] for x in seg]
             evs.append({"e": "reset", "scn": s})
             for f in s["frames"]: evs.append({"e": "read", "frame": f})
             evs.append({"e": "send", "packet": unhexs(pk)})
             evs.append({"e": "deliver", "packet": unhexs(pk), "frames": frames_out})
-        total += len(scns)
-        shard_jobs.append(((tscf, udp, fd, count), evs))
-        if scns: v.sample({"scenario": scns[0]})
+        return mode, evs, scns
+    with cf.ThreadPoolExecutor(max_workers=8) as pool:
+        for mode, evs, scns in pool.map(run_mode, modes):
+            total += len(scns)
+            shard_jobs.append((mode, evs))
+            if scns and mode == modes[0]: v.sample({"scenario": scns[0]})
     # validate every mode's recorded runs with TunnelTrace (constants = the mode)
     def resume(evs, idx):
         for j in range(idx + 1, len(evs)):
@@ -818,12 +827,21 @@ def c19(v, tier, seed):
             j = max(x for x in range(i + 1) if evs[x]["e"] == "reset")
             return tunnel_key(evs[j]["scn"], {"send": "talker-packet", "deliver": "listener-output"}.get(ev["e"], ev["e"]))
         return k
-    for (mode, evs) in shard_jobs:
-        if not evs: continue
-        parts = pdu.shard_by(evs, lambda e: e["e"] == "reset", 4 if q else 8)
+    def validate_mode(job):
+        mode, evs = job
+        if not evs: return
+        parts = pdu.shard_by(evs, lambda e: e["e"] == "reset", 2 if q else 4)
         for part in parts:
-            pdu.validate_events(v, wd, [part], "C19", "tunnel tscf=%d udp=%d fd=%d count=%d" % mode, module="TunnelTrace",
-                                cfg=tunnel_cfg(*mode), keyfn=keyfn_for(part), resume=resume)
+            vv = Verdict("C19", tier, seed, "model_checking")      # collect per thread, merge under the lock
+            pdu.validate_events(vv, wd, [part], "C19", "tunnel tscf=%d udp=%d fd=%d count=%d" % mode, module="TunnelTrace",
+                                cfg=tunnel_cfg(*mode), keyfn=keyfn_for(part), resume=resume, max_resume=4)
+            with lock:
+                for k_, d_, r_ in vv.violations: v.violation(k_, d_, r_)
+                for k_, t_ in vv.known: v.known.append((k_, t_))
+                v.cov["states"] += vv.cov["states"]; v.cov["transitions"] += vv.cov["transitions"]
+                v.cov["traces_validated_against_impl"] += vv.cov["traces_validated_against_impl"]; v.cov["tlc_runs"] += vv.cov["tlc_runs"]
+    with cf.ThreadPoolExecutor(max_workers=8) as pool:
+        list(pool.map(validate_mode, shard_jobs))
     v.cov["evaluations"] += total
     v.cov["rule"] = ("TLC enumerates every sequence of Count frames over the alphabet {5 identifier/EFF classes} x RTR (classic) or BRS x ESI (FD) x lengths, for "
                      "TSCF/NTSCF x UDP/raw x classic/FD x 1..3 frames per packet (RefTransparent on the model); each scenario is pushed through the real example talker "
@@ -1002,3 +1020,42 @@ def c20(v, tier, seed):
                      "is compiled as C99 and C++ with static assertions on %d public constants, sizes and member offsets (their stand-alone values)" % (
                          "pair" if q else "pair and triple", "" if q else " and triple", v.cov["public_constants_and_layout_facts"]))
     v.assumptions.append("the compiler's verdict is the oracle; the model contributes the enumeration and the explanation (agreement counted in model_vs_compiler)")
+
+
+def talker_streams(v, wd, pid, rnd, q):
+    """Growth beyond the listed properties (anchors of C05): the example talkers' packet streams are
+    recorded (sendto intercepted) and validated against the Talkers.tla stream machine."""
+    import xprog, concurrent.futures as cf
+    progs = [("aaf", "aaf-talker", [(0, 0)]), ("crf", "crf-talker", [(0, 0)]),
+             ("hello", "hello-talker", [(0, 0), (0, 1), (1, 0), (1, 1)]), ("vss", "vss-talker", [(0, 0), (0, 1), (1, 0), (1, 1)])]
+    npk = 300 if q else 2000
+    jobs = []
+    for prog, xname, modes in progs:
+        exe = xprog.build_xh(wd, xname)
+        for (tscf, udp) in modes:
+            inputs = " ".join(hexs([rnd.randrange(256) for _ in range(4)]) for _ in range(npk)) if prog == "aaf" else ""
+            res, _ = xprog.run_xh(exe, ["T %d %d 0 %d %s" % (tscf, udp, npk, inputs)])
+            r = res[0]
+            if r["status"] != "ok":
+                v.violation("talker prog=%s outcome=%s" % (prog, r["status"].split(":")[0]), "%s talker %s after %d packets" % (prog, r["status"], r["done"]), {"prog": prog, "tscf": tscf, "udp": udp})
+                continue
+            evs = []
+            for seg in r["outs"]:
+                for x in seg:
+                    if x.startswith("i"): evs.append({"e": "input", "bytes": unhexs(x[1:])})
+                    else: evs.append({"e": "pkt", "bytes": unhexs(x)})
+            jobs.append((prog, tscf, udp, evs))
+    def one(job):
+        prog, tscf, udp, evs = job
+        cfg = "SPECIFICATION TSpec\nCONSTANTS\n  Buf = {1}\n  Prog = \"%s\"\n  Tscf = %d\n  Udp = %d\nPOSTCONDITION TraceAccepted\nCHECK_DEADLOCK FALSE\n" % (prog, tscf, udp)
+        vv = Verdict(pid, "quick", 0, "model_checking")
+        pdu.validate_events(vv, wd, [evs], pid, "talker-%s-tscf%d-udp%d" % (prog, tscf, udp), module="Talkers", cfg=cfg, independent=False,
+                            keyfn=lambda e, evs_=None, i=None: "talker prog=%s tscf=%d udp=%d packet-not-reference-encoding" % (prog, tscf, udp))
+        return vv
+    with cf.ThreadPoolExecutor(max_workers=8) as pool:
+        for vv in pool.map(one, jobs):
+            for k_, d_, r_ in vv.violations: v.violation(k_, d_, r_)
+            v.cov["states"] += vv.cov["states"]; v.cov["transitions"] += vv.cov["transitions"]
+            v.cov["traces_validated_against_impl"] += vv.cov["traces_validated_against_impl"]; v.cov["tlc_runs"] += vv.cov["tlc_runs"]
+    v.cov["talker_streams"] = ["%s tscf=%d udp=%d: %d events" % (p, t, u, len(e)) for p, t, u, e in jobs]
+    if jobs: v.sample({"talker_packet": jobs[0][3][1] if len(jobs[0][3]) > 1 else jobs[0][3][0]})
